@@ -27,7 +27,7 @@ var profiles = map[string][]weighted{
 	"clients": {{"apply", 45}, {"tick", 5}, {"barrier", 8}, {"transfer", 6}, {"isolate", 5}, {"heal", 6}, {"remove", 2}, {"demote", 1}, {"crash", 4},
 		{"restart", 5}, {"cutleader", 3}, {"lossy", 2}, {"snapshot", 2}, {"inheritedtail", 4}, {"inflightfault", 3}, {"slowtransfer", 4}, {"busydisk", 4}, {"restoreinflight", 3}},
 	"verify": {{"verify", 25}, {"cutleader", 10}, {"partition", 8}, {"isolate", 5}, {"heal", 10}, {"apply", 15}, {"lossy", 6}, {"addnonvoter", 2},
-		{"demote", 2}, {"tick", 8}, {"transfer", 2}, {"crash", 2}, {"restart", 3}, {"demotecut", 4}, {"lagcompact", 8}},
+		{"demote", 2}, {"tick", 8}, {"transfer", 2}, {"crash", 2}, {"restart", 3}, {"demotecut", 4}, {"lagcompact", 8}, {"remove", 2}, {"removeverify", 6}},
 	"converge": {{"apply", 30}, {"tick", 5}, {"stalesuffix", 10}, {"lagcompact", 10}, {"crash", 8}, {"restart", 8}, {"isolate", 8}, {"partition", 8},
 		{"heal", 6}, {"snapshot", 5}, {"addvoter", 3}, {"restartall", 2}, {"lossy", 4}, {"crashop", 4}, {"join", 4}, {"flakyreads", 5}, {"succcrash", 8}},
 	"futures": {{"apply", 14}, {"barrier", 7}, {"verify", 7}, {"addvoter", 3}, {"addnonvoter", 2}, {"demote", 2}, {"remove", 3}, {"snapshot", 5},
@@ -239,6 +239,9 @@ func genAction(t *rapid.T, p *Program, ws []weighted) Action {
 		a.Arg = rapid.IntRange(0, 3).Draw(t, "call")
 	case "staleis":
 		a.N = oneOf(t, "writes", 3, 6, 12)
+	case "removeverify":
+		a.N = rapid.IntRange(0, 3).Draw(t, "who")
+		a.Arg = rapid.IntRange(0, 3).Draw(t, "slow")
 	case "succcrash":
 		a.N = rapid.IntRange(0, 1).Draw(t, "laggard")
 		a.Arg = rapid.IntRange(0, 3).Draw(t, "lagBy")
